@@ -240,6 +240,17 @@ func (e *Env) evalBinary(n *SBinary) Val {
 		return boolVal(Eq(e.EvalBool(n.X), e.EvalBool(n.Y)))
 	}
 	a, b := e.unify(e.Eval(n.X), e.Eval(n.Y))
+	if (n.Op == "+" || n.Op == "-") && !e.vc().BV && isInteger(a.T) {
+		// constant folding (the compiler does the same for constant expressions)
+		x, err1 := strconv.ParseInt(a.S, 10, 64)
+		y, err2 := strconv.ParseInt(b.S, 10, 64)
+		if err1 == nil && err2 == nil {
+			if n.Op == "+" {
+				return Val{T: a.T, S: IntLit(x + y)}
+			}
+			return Val{T: a.T, S: IntLit(x - y)}
+		}
+	}
 	bv := e.vc().BV && isInteger(a.T)
 	uns := isUnsigned(a.T)
 	switch n.Op {
@@ -462,6 +473,10 @@ func (e *Env) evalCall(n *SCall) Val {
 			ref = v.Fs[0].S
 		}
 		return boolVal(And(app(">=", ref, h.alloc(e.old)), app("<", ref, h.alloc(e.cur))))
+	case "hasdeadline":
+		// hasdeadline(ctx): ctx was derived by context.WithTimeout (ghost typestate)
+		v := arg(0)
+		return boolVal(Select(h.get(e.cur, "X:ctx:deadline", "(Array Int Bool)"), v.Fs[1].S))
 	case "prefresh":
 		// allocated since the entry of the enclosing loop
 		v := arg(0)
@@ -589,6 +604,10 @@ func (e *Env) evalCall(n *SCall) Val {
 		k := e.coerce(arg(1), m.T)
 		one := e.coerce(Val{T: untypedInt, S: "1"}, m.T)
 		sh := e.x.bitop("<<", m.T, one.S, k.S)
+		if n, err := strconv.ParseInt(k.S, 10, 64); err == nil && n >= 0 && n < 63 && !e.vc().BV {
+			// constant bit: the compiler folds 1<<k, so the code tests against the literal mask
+			sh = IntLit(int64(1) << uint(n))
+		}
 		and := e.x.bitop("&", m.T, m.S, sh)
 		return boolVal(Not(Eq(and, e.coerce(Val{T: untypedInt, S: "0"}, m.T).S)))
 	}
@@ -680,6 +699,10 @@ func (e *Env) intArg(n *SCall, i int) int {
 // lockLoc evaluates an expression denoting a lock embedded in an object:
 // x.f (field f of *x being a sync.Mutex etc.) => (base ref term, key).
 func (e *Env) lockLoc(x SExpr) lockLoc {
+	if c, ok := x.(*SCall); ok && c.Fun == "global" {
+		// held(global("pkg.name")): a package-level lock
+		return lockLoc{Base: "1", Key: "global:" + e.strArg(c, 0) + ":"}
+	}
 	sel, ok := x.(*SSel)
 	if !ok {
 		// a bare pointer to an object that embeds the lock by promotion
